@@ -44,11 +44,18 @@ def run(rep, tier):
         rep.count("sends_after_unanswered", info["after_unanswered"])
 
     n = 1500 if tier == "quick" else 30000
-    core.run_hypothesis(rep, gen.case_strategy(build_case, 4096), body, n,
-                        describe=lambda c: v3hist.describe(c["cfg"], c["steps"]))
+    if core.run_hypothesis(rep, gen.case_strategy(build_case, 4096), body, n,
+                           describe=lambda c: v3hist.describe(c["cfg"], c["steps"])):
+        return
+    # sessions of the real clients that install their keys after discovery: every later request must be encrypted
+    # exactly as the statement says
+    v3hist.discovered_stage(rep, G, "C11", 120 if tier == "quick" else 2500, True, True,
+                            ("priv-flag-clear", "privacy-mismatch", "des-length", "padding-too-long", "flags"))
 
 
 def replay(rep, case, body=None):
+    if case.get("_stage") == "discovered":
+        return v3hist.replay_discovered(rep, case)
     G = drivers.load()
     cfg, steps = v3hist.undescribe(case)
     try:
